@@ -92,7 +92,7 @@ where
         segments: ends
             .iter()
             .enumerate()
-            .map(|(i, &e)| Segment { end: e, poly: T::from_nums(&LANE_ID.iter().map(|v| v * (i as f64 + 1.0) + 0.25 * i as f64).collect::<Vec<_>>()) })
+            .map(|(i, &e)| Segment { end: e, poly: T::from_nums(&LANE_ID.iter().map(|v| v * ((i % 17) as f64 + 1.0) + 0.25 * (i % 5) as f64).collect::<Vec<_>>()) })
             .collect(),
     };
     let detail = |obs: serde_json::Value| json!({"ends": fjs(ends), "piece_type": T::NAME, "observation": obs});
@@ -166,7 +166,7 @@ pub fn check(thorough: bool, _seed: u64) -> Check {
     sh.push(vec![0.3, 0.1 + 0.2, 1.0]);
     sh.push(vec![-1.0, exact::succ(-1.0), 5e-324, 1e-323]);
     // every length up to 520 (strip / block sizes of any chunked implementation)
-    for n in 5..=520usize {
+    for n in (5..=(if thorough { 3300usize } else { 1650 })).chain([32768, 65537, 70003]) {
         sh.push((1..=n).map(|i| i as f64).collect());
     }
     for n in [6usize, 9, 17] {
@@ -190,15 +190,20 @@ pub fn check(thorough: bool, _seed: u64) -> Check {
             if cx.sampling() {
                 cx.sample(json!({"ends": fjs(ends)}));
             }
-            match cx.choose(4) {
+            match cx.choose(9) {
                 0 => pw_leaf::<Poly1>(ends, cx),
                 1 => pw_leaf::<Poly4>(ends, cx),
                 2 => pw_leaf::<Poly8>(ends, cx),
-                _ => pw_leaf::<Poly0>(ends, cx),
+                3 => pw_leaf::<Poly0>(ends, cx),
+                4 => pw_leaf::<Poly2>(ends, cx),
+                5 => pw_leaf::<Poly3>(ends, cx),
+                6 => pw_leaf::<Poly5>(ends, cx),
+                7 => pw_leaf::<Poly6>(ends, cx),
+                _ => pw_leaf::<Poly7>(ends, cx),
             }
         }),
         classes: vec![],
-        bounds: json!({"shapes": "end lists of length 1..4 over {1..4}, 1..3 over {-MAX,-0.0,+0.0,5e-324,+inf}, 1..n for every n up to 520, n=6,9,17 also with duplicate runs; lists over {1,succ(1),succ(succ(1)),2}, [0.3, 0.1+0.2, 1], [-1,succ(-1),5e-324,1e-323]", "piece_types": "Poly0, Poly1, Poly4, Poly8"}),
+        bounds: json!({"shapes": "end lists of length 1..4 over {1..4}, 1..3 over {-MAX,-0.0,+0.0,5e-324,+inf}, 1..n for every n up to 1650 (3300 thorough) and n = 32768, 65537, 70003, n=6,9,17 also with duplicate runs; lists over {1,succ(1),succ(succ(1)),2}, [0.3, 0.1+0.2, 1], [-1,succ(-1),5e-324,1e-323]", "piece_types": "Poly0..Poly8"}),
     };
     Check {
         id: "C08",
